@@ -88,10 +88,10 @@ func vpSameImplTree(a, b Expression) bool {
 }
 
 type vpRangeCheck struct {
-	text                       []byte
-	within, nested, ordered    bool
-	reparseOK, reparseSame     bool
-	nodes                      int
+	text                    []byte
+	within, nested, ordered bool
+	reparseOK, reparseSame  bool
+	nodes                   int
 }
 
 func (c *vpRangeCheck) walk(n Expression, lo, hi int) {
@@ -190,4 +190,28 @@ func vpErrText(text []byte, src *SourceCode, err error) {
 	want := "pos(" + strconv.Itoa(line) + ", " + strconv.Itoa(col) + ") error(" + strconv.Itoa(d.Code) + ") " + d.MessageText
 	vpObserve("err", err.Error())
 	vpAssert("C15/errtext/format-and-position", err.Error() == want)
+}
+
+func init() {
+	vpHarnesses["VP_C15_errpool"] = VP_C15_errpool
+}
+
+// C15/errpool: CONCRETE POOL of longer rejected texts (several diagnostics per
+// text, diagnostics raised inside a token that is itself unexpected, invalid
+// bytes near the end, multi-line texts with every kind of line break): the
+// error text locates the first recorded diagnostic and every diagnostic lies
+// within the text.
+func VP_C15_errpool() {
+	pool := []string{
+		"f(1 'ab", "[1 2_]", "f(a,\n  b 'x\ny)", "f(\xff)", "[1,\xc3]", "f(a, \xe2\x80", "[\x80", "[1 '", "f(1 2 3)", "[a b c]", "f(a,\r\n b c)", "[1,  2 3]",
+		"(1\r", "1 +\r", "f(@)\r", "a ? b\n: ", "f(a,, b)", "[,]", "f(a b, c d)", "[1_ 2]", "f('x\n', 2)", "x.\n", "[1\u0085 2]", "f(1\r\n\r\n 2)", "[\n\n\n1 2]", "'abc\xe2\x80", "f(1, \xe2\x80",
+	}
+	text := []byte(pool[vpChoice("text", len(pool))])
+	src, err := ParseSourceCode(text)
+	vpAssert("C15/errpool/rejected", err != nil)
+	if err == nil {
+		return
+	}
+	vpErrText(text, src, err)
+	vpReach("C15/errpool/done")
 }
